@@ -1,5 +1,107 @@
-import TuModel.Model.Pipe
+/-
+  C05 — the threaded pipeline is a sequential map under every schedule.
+  Model: `Tu.pstep` (Model/Pipe.lean), the interleaving semantics of the `Pipe` worker loop and
+  `Pipe::next`.  All statements are about every state reachable under any schedule (`PReach`);
+  they follow from the inductive invariant `Tu.Inv` (Lemmas/PipeL.lean, Lemmas/PipeInv.lean).
+-/
+import TuModel.Lemmas.PipeProg
 namespace Tu.C05
 open Tu
-theorem placeholder_init_next (W n : Nat) : (PState.init W n).next = 0 := rfl
+-- `pipe_safety` does not use `1 ≤ W` and `pipe_measure` uses neither `1 ≤ W` nor reachability; the
+-- hypotheses are kept so that all four statements have the same shape
+set_option linter.unusedVariables false
+
+/-- no loss, no duplication, no reordering, each item processed at most once — in every reachable state -/
+theorem pipe_safety (W n : Nat) (hW : 1 ≤ W) (s : PState) (h : PReach W n s) :
+    s.next ≤ n ∧ s.chan.length ≤ W ∧ (∀ i, s.calls i ≤ 1) ∧
+    (s.dropped = false → s.recvd ++ s.chan = List.range (s.recvd ++ s.chan).length) ∧
+    (∀ w w' i, w < W → w' < W → holds s w i → holds s w' i → w = w') := by
+  have hi := inv_reach h
+  refine ⟨hi.next_le, hi.chan_le, ?_, hi.fifo, ?_⟩
+  · intro i
+    by_cases h1 : s.next ≤ i
+    · rw [hi.calls_hi i h1]; omega
+    · by_cases h2 : ∃ w, w < W ∧ s.pc w = .holding i
+      · obtain ⟨w, hw, hpc⟩ := h2
+        rw [hi.calls_hold w i hw hpc]; omega
+      · rw [hi.calls_done i (by omega) (fun w hw hpc => h2 ⟨w, hw, hpc⟩)]; omega
+  · intro w w' i hw hw' h1 h2
+    exact hi.held_uniq w w' i hw hw' ((holds_iff s w i).mp h1) ((holds_iff s w' i).mp h2)
+
+/-- when the iteration has ended (the consumer got `None`) it delivered exactly `f x0, f x1, …` in
+order and every item was processed exactly once -/
+theorem pipe_complete (W n : Nat) (hW : 1 ≤ W) (s : PState) (h : PReach W n s) (hc : s.closed = true) :
+    s.recvd = List.range n ∧ ∀ i, i < n → s.calls i = 1 := by
+  have hi := inv_reach h
+  obtain ⟨hall, hch, hdr⟩ := hi.closed_ hc
+  have hnext : s.next = n := hi.exited_ hdr 0 (by omega) (hall 0 (by omega))
+  have hturn : s.turn = s.next := by
+    apply Classical.byContradiction
+    intro hne
+    have := hi.turn_le
+    obtain ⟨u, hu, hui⟩ := hi.held_ex s.turn (Nat.le_refl _) (by omega)
+    rw [hall u hu] at hui; cases hui
+  have hL : (s.recvd ++ s.chan).length = s.turn := by
+    rcases hi.len_turn hdr with hl | ⟨u, ok, hu, hpc⟩
+    · exact hl
+    · rw [hall u hu] at hpc; cases hpc
+  have hf := hi.fifo hdr
+  rw [hL, hch, List.append_nil, hturn, hnext] at hf
+  refine ⟨hf, ?_⟩
+  intro i hin
+  apply hi.calls_done i (by omega)
+  intro w hw
+  rw [hall w hw]; simp
+
+/-- no deadlock: unless the consumer is done, some step that makes progress is enabled -/
+theorem pipe_deadlock_free (W n : Nat) (hW : 1 ≤ W) (s : PState) (h : PReach W n s)
+    (hc : s.closed = false) (hd : s.dropped = false) :
+    ∃ a s', a ≠ PAction.drop ∧ pstep s a = some s' ∧ pmeasure s' < pmeasure s := by
+  have hi := inv_reach h
+  cases hch : s.chan with
+  | cons x rest =>
+    -- something is queued: the consumer can receive
+    have hs : stepRecv s = some { s with chan := rest, recvd := s.recvd ++ [x] } := by
+      unfold stepRecv; simp [hc, hd, hch]
+    exact ⟨.recv, _, by simp, hs, measure_recv hs⟩
+  | nil =>
+    by_cases hall : allExited s = true
+    · -- all workers gone and nothing queued: the consumer gets `None`
+      have hs : stepClose s = some { s with closed := true } := by
+        unfold stepClose; simp [hc, hd, hch, hall]
+      exact ⟨.close, _, by simp, hs, measure_close hs⟩
+    · -- some worker is still running, and the channel has room
+      have : ∃ w, w < W ∧ s.pc w ≠ .exited := by
+        apply Classical.byContradiction
+        intro hcon
+        apply hall
+        rw [allExited_iff, hi.hW]
+        intro w hw
+        apply Classical.byContradiction
+        intro hne
+        exact hcon ⟨w, hw, hne⟩
+      obtain ⟨w, hw, hne⟩ := this
+      have hroom : s.chan.length < s.W := by rw [hch, hi.hW]; simp; omega
+      obtain ⟨a, s', ha, _, _, hs, hm⟩ := worker_progress hi hw hne (Or.inr hroom)
+      exact ⟨a, s', ha, hs, hm⟩
+
+/-- every step other than `drop` is a stutter (failed spin) or strictly decreases the measure, so under a
+fair scheduler every run terminates -/
+theorem pipe_measure (W n : Nat) (hW : 1 ≤ W) (s s' : PState) (a : PAction) (h : PReach W n s)
+    (ha : a ≠ PAction.drop) (hs : pstep s a = some s') : s' = s ∨ pmeasure s' < pmeasure s :=
+  pstep_measure ha hs
+
+/-! non-vacuity: concrete schedules reach `closed`, and the theorems apply to them -/
+
+example : (prun (PState.init 1 1) [.take 0, .compute 0, .spin 0, .send 0, .advance 0, .take 0, .recv, .close]).map
+    (fun s => (s.recvd, s.closed)) = some ([0], true) := by decide
+
+/-- two workers, three items, worker 1 overtakes worker 0 on computing but has to wait for its turn -/
+example : (prun (PState.init 2 3)
+    [.take 0, .take 1, .compute 1, .spin 1, .compute 0, .spin 0, .send 0, .advance 0, .spin 1, .send 1,
+     .take 0, .recv, .compute 0, .advance 1, .take 1, .spin 0, .send 0, .advance 0, .take 0, .recv, .recv,
+     .close]).map
+    (fun s => (s.recvd, s.closed, s.next, s.turn, [s.calls 0, s.calls 1, s.calls 2])) =
+    some ([0, 1, 2], true, 3, 3, [1, 1, 1]) := by decide
+
 end Tu.C05
